@@ -1,4 +1,5 @@
 import PyrollModel.Gen.C09Contours
+import PyrollModel.Gen.C09Roll
 import PyrollProofs.PassGeomInterp
 
 /-!
@@ -836,5 +837,46 @@ example : ∀ g ∈ [G, H], ∀ x ∈ handedOver two_cls two_usable_cs [g], ∃ 
 example : keepPt (callEnv env3 three_usable_cs) three_usable_cs_helper.ops
     (placePt env3 three_roll_line2 ⟨-(env3 "roll.groove.usable_width" / 2), 0⟩) = some ⟨env3 "gap" / 2, env3 U / 2⟩ :=
   (usable_cs3_keeps_usable_width_corners env3 world3_example.usable_width (by simp [env3]) (by simp [env3])).1
+
+/-! ## where the placed contour comes from; what refinement does to the cross-sections
+
+`contour_lines` places `self.roll.contour_line` (pinned by the placement extractor).  `Gen.C09Roll` holds, re-read from the
+source on every run: the property `Roll.contour_line`, every implementation registered on `Roll.contour_points`, the
+statements of `refine_cross_section`, and what the return statement of the cross-section helpers wraps the polygon in. -/
+
+section RollSource
+open Gen.C09Roll
+
+/-- **the contour a pass places is the groove's contour** on every roll whose contour points are not given explicitly,
+    whatever else is given on the roll (barrel width, radii): `Roll.contour_line` is the line through the hook value
+    `contour_points`, and every implementation of that hook answers `groove.contour_points` - unguarded, reading nothing else.
+    (Together with the placement theorems above, which hold for an ARBITRARY vertex list, this covers explicitly given contour
+    points as well.) -/
+theorem placed_contour_is_the_groove_contour :
+    resolve roll_hook_impls 3 roll_contour_line = [.lineOf .grooveContour] := by decide
+
+/-- **refinement only adds points**: the cross-section helpers return their clipped polygon through `refine_cross_section`
+    (or as it is); with `Config.PROFILE_CONTOUR_REFINEMENT = 0` that function answers its argument, with every value `≥ 1` its
+    argument with vertices inserted on the edges - no statement of it changes the point set.  Hence the span / kept-point
+    theorems about `usable_cross_section` hold under every value of the configuration switch. -/
+theorem refinement_only_adds_points :
+    (∀ s ∈ refine_steps, s.keepsPointSet = true) ∧
+    answering 0 refine_steps = some (.offBelow 1) ∧
+    (∀ v, 1 ≤ v → answering v refine_steps = some .segmentize) ∧
+    (∀ h ∈ helper_returns, h.2 = "refine_cross_section" ∨ h.2 = "") ∧
+    helper_returns.map (·.1) = [two_usable_cs_helper.fn, three_usable_cs_helper.fn] := by
+  refine ⟨by decide, by decide, ?_, by decide, by decide⟩
+  intro v hv
+  have : ¬ v < 1 := by omega
+  simp [refine_steps, answering, this]
+
+/-- non-vacuity: the statements distinguish - an implementation reading more than the groove, a rebuilt polygon -/
+example : resolve [("contour_points", [.opaque "continues the face to the barrel edge"])] 3 roll_contour_line
+    ≠ [.lineOf .grooveContour] := by decide
+example : ¬ (∀ s ∈ [RefineStep.offBelow 1, .opaque "polygon rebuilt from interpolated points"], s.keepsPointSet = true) := by
+  decide
+example : answering 7 refine_steps = some .segmentize := refinement_only_adds_points.2.2.1 7 (by omega)
+
+end RollSource
 
 end C09
